@@ -1,3 +1,772 @@
-use crate::ctx::Ctx;
-pub fn run_c01(_ctx: &mut Ctx) { unimplemented!() }
-pub fn run_c05(_ctx: &mut Ctx) { unimplemented!() }
+//! C01 (dimensions always agree with contents) and C05 (every element dropped exactly once):
+//! a history interpreter drives a real `TooDee<T>` and the rows-of-cells model side by side and
+//! checks the shape invariant, the cells and the ledger after every step.
+use crate::ctx::*;
+use crate::elem::*;
+use crate::model::*;
+use crate::monitor::*;
+use crate::ops::*;
+use crate::recv::Win;
+use crate::wl_insrem::{do_insert, drive_drain, Axis, ITER_KINDS};
+use std::collections::{HashSet, VecDeque};
+use toodee::*;
+
+#[derive(Clone, Debug, Hash, PartialEq, Eq)]
+pub enum Step {
+    New(usize, usize),
+    Init(usize, usize),
+    FromVec(usize, usize, usize),
+    FromBox(usize, usize, usize),
+    Default,
+    WithCapacity(usize),
+    CloneSelf,
+    FromView(Win, bool),
+    Ins { axis: Axis, idx: usize, len: usize, push: bool, ik: usize },
+    Rem { axis: Axis, idx: usize, pop: bool, front: usize, back: usize, inter: usize },
+    Clear,
+    SwapDims,
+    Reserve(usize),
+    ReserveExact(usize),
+    Shrink,
+    InPlace(Op),
+    ViewOp(Win, Op),
+    DataMut(usize),
+    /// C05 only: convert and rebuild (Vec::from / Box::from / into_iter)
+    RoundTripVec,
+    RoundTripBox,
+    IntoIterPartial(usize, usize),
+}
+
+impl Step {
+    pub fn kind(&self) -> &'static str {
+        match self {
+            Step::New(..) => "new",
+            Step::Init(..) => "init",
+            Step::FromVec(..) => "from_vec",
+            Step::FromBox(..) => "from_box",
+            Step::Default => "default",
+            Step::WithCapacity(_) => "with_capacity",
+            Step::CloneSelf => "clone",
+            Step::FromView(_, false) => "From<TooDeeView>",
+            Step::FromView(_, true) => "From<TooDeeViewMut>",
+            Step::Ins { axis: Axis::Row, push: false, .. } => "insert_row",
+            Step::Ins { axis: Axis::Row, push: true, .. } => "push_row",
+            Step::Ins { axis: Axis::Col, push: false, .. } => "insert_col",
+            Step::Ins { axis: Axis::Col, push: true, .. } => "push_col",
+            Step::Rem { axis: Axis::Row, pop: false, .. } => "remove_row",
+            Step::Rem { axis: Axis::Row, pop: true, .. } => "pop_row",
+            Step::Rem { axis: Axis::Col, pop: false, .. } => "remove_col",
+            Step::Rem { axis: Axis::Col, pop: true, .. } => "pop_col",
+            Step::Clear => "clear",
+            Step::SwapDims => "swap_dimensions",
+            Step::Reserve(_) => "reserve",
+            Step::ReserveExact(_) => "reserve_exact",
+            Step::Shrink => "shrink_to_fit",
+            Step::InPlace(op) => op.kind(),
+            Step::ViewOp(_, _) => "view_mut-op",
+            Step::DataMut(_) => "data_mut",
+            Step::RoundTripVec => "Vec::from",
+            Step::RoundTripBox => "Box::from",
+            Step::IntoIterPartial(..) => "into_iter",
+        }
+    }
+}
+
+pub struct Hist<T: Elem> {
+    pub a: TooDee<T>,
+    pub g: Grid,
+    pub steps_done: usize,
+    pub passed_empty: u64,
+    pub rejected: u64,
+    /// C05 mode: steps the model would reject are skipped, never executed (keeps histories panic-free)
+    pub valid_only: bool,
+}
+
+#[derive(PartialEq, Eq, Clone, Copy, Debug)]
+pub enum StepOut {
+    Accepted,
+    Rejected,
+    Failed,
+    Skipped,
+}
+
+fn fresh_line<T: Elem>(len: usize) -> (Vec<T>, Vec<Mc>) {
+    let items: Vec<T> = (0..len).map(|i| T::fresh(20 + (i % 4) as u32)).collect();
+    let line = items.iter().map(mc).collect();
+    (items, line)
+}
+
+fn freshen(g: &mut Grid) {
+    for row in &mut g.cells {
+        for c in row.iter_mut() {
+            c.uid = FRESH;
+        }
+    }
+}
+
+impl<T: Elem + Clone + Ord + Default> Hist<T> {
+    pub fn new() -> Hist<T> {
+        Hist { a: TooDee::default(), g: Grid::empty(), steps_done: 0, passed_empty: 0, rejected: 0, valid_only: false }
+    }
+
+    /// Execute one step on both sides and check everything. Returns the outcome.
+    pub fn step(&mut self, ctx: &mut Ctx, st: &Step) -> StepOut {
+        let opn = st.kind();
+        let before_size = self.g.size();
+        let what = format!("step {} {:?} at size {:?} ({})", self.steps_done, st, before_size, T::NAME);
+        self.steps_done += 1;
+        ctx.count("steps", 1);
+        let keep = T::CLONE_KEEPS_UID;
+        // (model verdict, real result)
+        let mut newg = self.g.clone();
+        let verdict: MRes<()>;
+        let res: Result<(), String>;
+        let mut held: Vec<T> = vec![];
+        match st {
+            Step::New(c, r) | Step::Init(c, r) => {
+                let ok = c.checked_mul(*r).map_or(false, |p| p <= 4096) && ((*c == 0) == (*r == 0));
+                let is_new = matches!(st, Step::New(..));
+                let seed = T::fresh(33);
+                let sm = mc(&seed);
+                verdict = if ok {
+                    let cell = if is_new { Mc { uid: FRESH, key: 0 } } else if keep { sm } else { Mc { uid: FRESH, key: sm.key } };
+                    newg = if *c == 0 { Grid::empty() } else { Grid::from_flat(*c, *r, &vec![cell; c * r]) };
+                    Ok(())
+                } else {
+                    Err(())
+                };
+                if verdict.is_err() && self.valid_only {
+                    return StepOut::Skipped;
+                }
+                // never ask for a huge accepted allocation
+                if !ok && c.checked_mul(*r).map_or(false, |p| p > 4096) && ((*c == 0) == (*r == 0)) {
+                    return StepOut::Rejected;
+                }
+                let r2 = catches(|| if is_new { TooDee::<T>::new(*c, *r) } else { TooDee::init(*c, *r, seed) });
+                res = r2.map(|n| self.a = n);
+            }
+            Step::FromVec(c, r, len) | Step::FromBox(c, r, len) => {
+                let ok = c.checked_mul(*r) == Some(*len) && ((*c == 0) == (*r == 0));
+                let (items, line) = fresh_line::<T>(*len);
+                verdict = if ok {
+                    newg = if *c == 0 { Grid::empty() } else { Grid::from_flat(*c, *r, &line) };
+                    Ok(())
+                } else {
+                    Err(())
+                };
+                if verdict.is_err() && self.valid_only {
+                    return StepOut::Skipped;
+                }
+                let is_vec = matches!(st, Step::FromVec(..));
+                let r2 = catches(|| if is_vec { TooDee::from_vec(*c, *r, items) } else { TooDee::from_box(*c, *r, items.into_boxed_slice()) });
+                res = r2.map(|n| self.a = n);
+            }
+            Step::Default => {
+                newg = Grid::empty();
+                verdict = Ok(());
+                self.a = TooDee::default();
+                res = Ok(());
+            }
+            Step::WithCapacity(n) => {
+                newg = Grid::empty();
+                verdict = Ok(());
+                let r2 = catches(|| TooDee::<T>::with_capacity(*n));
+                res = r2.map(|n2| {
+                    if n2.capacity() < *n {
+                        ctx.violation(opn, "capacity-too-small", what.clone());
+                    }
+                    self.a = n2
+                });
+            }
+            Step::CloneSelf => {
+                if !keep {
+                    freshen(&mut newg);
+                }
+                verdict = Ok(());
+                let r2 = catches(|| self.a.clone());
+                res = r2.map(|n| self.a = n);
+            }
+            Step::FromView(win, m) => {
+                verdict = match self.g.window(win.0, win.1) {
+                    Ok(w) => {
+                        newg = w;
+                        if !keep {
+                            freshen(&mut newg);
+                        }
+                        Ok(())
+                    }
+                    Err(()) => Err(()),
+                };
+                if verdict.is_err() && self.valid_only {
+                    return StepOut::Skipped;
+                }
+                let a = &mut self.a;
+                let r2 = catches(|| if *m { TooDee::from(a.view_mut(win.0, win.1)) } else { TooDee::from(a.view(win.0, win.1)) });
+                res = r2.map(|n| self.a = n);
+            }
+            Step::Ins { axis, idx, len, push, ik } => {
+                let (items, line) = fresh_line::<T>(*len);
+                verdict = if *axis == Axis::Row { newg.insert_row(*idx, &line) } else { newg.insert_col(*idx, &line) };
+                if verdict.is_err() && self.valid_only {
+                    return StepOut::Skipped;
+                }
+                let a = &mut self.a;
+                res = catches(|| do_insert(a, *axis, *push, *idx, items, *ik));
+            }
+            Step::Rem { axis, idx, pop, front, back, inter } => {
+                let dim = if *axis == Axis::Row { self.g.rows } else { self.g.cols };
+                if *pop && dim == 0 {
+                    // pop on empty: None, nothing changes
+                    verdict = Ok(());
+                    let none = if *axis == Axis::Row { self.a.pop_row().is_none() } else { self.a.pop_col().is_none() };
+                    if !none {
+                        ctx.violation(opn, "pop-on-empty-not-none", what.clone());
+                    }
+                    res = Ok(());
+                } else {
+                    let idx = &(if *pop { dim - 1 } else { *idx });
+                    let line_res = if *axis == Axis::Row { newg.remove_row(*idx) } else { newg.remove_col(*idx) };
+                    let a = &mut self.a;
+                    match line_res {
+                        Ok(line) => {
+                            verdict = Ok(());
+                            let h = &mut held;
+                            let f = (*front).min(line.len());
+                            let b = (*back).min(line.len() - f);
+                            res = catches(|| {
+                                let ok = match (axis, pop) {
+                                    (Axis::Row, false) => drive_drain(ctx, opn, &mut a.remove_row(*idx), &line, f, b, *inter, h),
+                                    (Axis::Row, true) => drive_drain(ctx, opn, &mut a.pop_row().expect("harness: pop_row None on non-empty"), &line, f, b, *inter, h),
+                                    (Axis::Col, false) => drive_drain(ctx, opn, &mut a.remove_col(*idx), &line, f, b, *inter, h),
+                                    (Axis::Col, true) => drive_drain(ctx, opn, &mut a.pop_col().expect("harness: pop_col None on non-empty"), &line, f, b, *inter, h),
+                                };
+                                let _ = ok;
+                            });
+                        }
+                        Err(()) => {
+                            if self.valid_only {
+                                return StepOut::Skipped;
+                            }
+                            verdict = Err(());
+                            res = catches(|| {
+                                if *axis == Axis::Row {
+                                    let _ = a.remove_row(*idx).len();
+                                } else {
+                                    let _ = a.remove_col(*idx).len();
+                                }
+                            });
+                        }
+                    }
+                }
+            }
+            Step::Clear => {
+                newg.clear();
+                verdict = Ok(());
+                let a = &mut self.a;
+                res = catches(|| a.clear());
+            }
+            Step::SwapDims => {
+                newg.swap_dimensions();
+                verdict = Ok(());
+                self.a.swap_dimensions();
+                res = Ok(());
+            }
+            Step::Reserve(n) | Step::ReserveExact(n) => {
+                verdict = Ok(());
+                let a = &mut self.a;
+                let exact = matches!(st, Step::ReserveExact(_));
+                res = catches(|| if exact { a.reserve_exact(*n) } else { a.reserve(*n) });
+                if res.is_ok() && !T::IS_ZST && self.a.capacity() < self.a.data().len() + n {
+                    ctx.violation(opn, "capacity-too-small", what.clone());
+                }
+            }
+            Step::Shrink => {
+                verdict = Ok(());
+                self.a.shrink_to_fit();
+                res = Ok(());
+            }
+            Step::DataMut(i) => {
+                let n = self.g.len();
+                if n == 0 {
+                    verdict = Ok(());
+                    res = Ok(());
+                    let _ = self.a.data_mut().len();
+                } else {
+                    let i = i % n;
+                    let v = T::fresh(44);
+                    newg.cells[i / self.g.cols][i % self.g.cols] = mc(&v);
+                    verdict = Ok(());
+                    if i % 2 == 0 {
+                        self.a.data_mut()[i] = v;
+                    } else {
+                        let s: &mut [T] = self.a.as_mut();
+                        s[i] = v;
+                    }
+                    res = Ok(());
+                }
+            }
+            Step::InPlace(op) | Step::ViewOp(_, op) => {
+                let win = match st {
+                    Step::ViewOp(w, _) => Some(*w),
+                    _ => None,
+                };
+                let mut wg = match win {
+                    Some(w) => self.g.window(w.0, w.1).expect("harness: ViewOp windows are valid"),
+                    None => self.g.clone(),
+                };
+                let (wc, wr) = wg.size();
+                let nv = (wc.max(1) * wr.max(1) + 3).max(wc + 3) * (wr + 3) + 2;
+                let nv = if matches!(op, Op::CopyFromToodee(..) | Op::CloneFromToodee(..) | Op::CopyFromSlice(_) | Op::CloneFromSlice(_) | Op::RowsMut(_) | Op::CellsMut(_) | Op::ColMut(..)) { nv } else { 1 };
+                let vals: Vec<T> = (0..nv).map(|i| T::fresh(60 + (i % 3) as u32)).collect();
+                let mut vm: VecDeque<Mc> = vals.iter().map(mc).collect();
+                let mut vals: VecDeque<T> = vals.into();
+                verdict = match apply_model(&mut wg, op, &mut vm, keep) {
+                    Ok(_) => {
+                        match win {
+                            Some(w) => newg.write_window(w.0, &wg),
+                            None => newg = wg,
+                        }
+                        Ok(())
+                    }
+                    Err(()) => Err(()),
+                };
+                if verdict.is_err() && self.valid_only {
+                    return StepOut::Skipped;
+                }
+                let a = &mut self.a;
+                res = catches(|| match win {
+                    Some(w) => {
+                        let mut v = a.view_mut(w.0, w.1);
+                        apply_real(&mut v, op, &mut vals);
+                    }
+                    None => {
+                        apply_real(a, op, &mut vals);
+                    }
+                });
+            }
+            Step::RoundTripVec | Step::RoundTripBox => {
+                verdict = Ok(());
+                let (c, r) = self.a.size();
+                let a = std::mem::take(&mut self.a);
+                let is_vec = matches!(st, Step::RoundTripVec);
+                res = catches(|| {
+                    if is_vec {
+                        let v: Vec<T> = a.into();
+                        TooDee::from_vec(c, r, v)
+                    } else {
+                        let b: Box<[T]> = a.into();
+                        TooDee::from_box(c, r, b)
+                    }
+                })
+                .map(|n| self.a = n);
+            }
+            Step::IntoIterPartial(f, b) => {
+                // consume the array: take f from the front, b from the back, drop the iterator
+                verdict = Ok(());
+                let flat = self.g.flat();
+                newg = Grid::empty();
+                let a = std::mem::take(&mut self.a);
+                let h = &mut held;
+                res = catches(|| {
+                    let mut it = a.into_iter();
+                    let line = flat;
+                    let ff = (*f).min(line.len());
+                    let bb = (*b).min(line.len() - ff);
+                    drive_drain(ctx, "into_iter", &mut it, &line, ff, bb, 0, h);
+                });
+            }
+        }
+        // ---- judge
+        let out = match (&verdict, &res) {
+            (Ok(()), Ok(())) => {
+                self.g = newg;
+                StepOut::Accepted
+            }
+            (Err(()), Err(_)) => {
+                self.rejected += 1;
+                ctx.count("rejected", 1);
+                StepOut::Rejected
+            }
+            (Ok(()), Err(m)) => {
+                if m.starts_with("harness:") {
+                    panic!("{}", m);
+                }
+                ctx.violation(opn, "valid-call-panicked", format!("{}: {}", what, m));
+                StepOut::Failed
+            }
+            (Err(()), Ok(())) => {
+                ctx.violation(opn, "invalid-call-accepted", format!("{} -> size {:?}", what, self.a.size()));
+                StepOut::Failed
+            }
+        };
+        // quiescent-point checks (also after rejected and failed steps: the array must stay usable)
+        let held_ids: HashSet<u64> = held.iter().map(|t| t.uid()).collect();
+        let mut ok = true;
+        if out != StepOut::Failed {
+            ok &= check_shape(ctx, opn, &self.a, &mut self.g);
+        }
+        ok &= check_tokens(ctx, opn, &self.a, &held_ids);
+        if T::OWNS && !T::IS_ZST {
+            for h in &held {
+                if !is_live(h.uid()) {
+                    ctx.violation(opn, "ledger:held-not-live", format!("{}: yielded id {} already dropped", what, h.uid()));
+                    ok = false;
+                }
+            }
+        }
+        drop(held);
+        ok &= check_double_drops(ctx, opn);
+        if self.g.len() == 0 {
+            self.passed_empty += 1;
+        }
+        ctx.max("max_cells", self.g.len() as u64);
+        if !ok {
+            return StepOut::Failed;
+        }
+        if out != StepOut::Failed {
+            ctx.seen("transitions", (before_size, opn, self.g.size(), out == StepOut::Accepted));
+        }
+        out
+    }
+}
+
+// ------------------------------------------------------------------------------------------------
+// random step generation
+
+fn rand_walk(rng: &mut Rng) -> Walk {
+    *rng.pick(&WALKS)
+}
+
+fn rand_window(rng: &mut Rng, c: usize, r: usize) -> Win {
+    let s0 = rng.below(c + 1);
+    let s1 = rng.below(r + 1);
+    ((s0, s1), (rng.range(s0, c), rng.range(s1, r)))
+}
+
+/// A (mostly valid) in-place operation for a receiver of size (c, r).
+fn rand_op(rng: &mut Rng, c: usize, r: usize, invalid: bool, copy_ok: bool) -> Op {
+    let bump = |rng: &mut Rng, d: usize| if invalid && rng.chance(1, 3) { d + rng.below(2) } else if d == 0 { 0 } else { rng.below(d) };
+    loop {
+        let k = rng.below(20);
+        let op = match k {
+            0 => Op::Fill,
+            1 => Op::SetCoord(bump(rng, c), bump(rng, r)),
+            2 => Op::SetRowCol(bump(rng, c), bump(rng, r)),
+            3 => Op::Swap((bump(rng, c), bump(rng, r)), (bump(rng, c), bump(rng, r))),
+            4 => Op::SwapRows(bump(rng, r), bump(rng, r)),
+            5 => Op::SwapCols(bump(rng, c), bump(rng, c)),
+            6 => Op::RowPair(bump(rng, r), bump(rng, r)),
+            7 => Op::RowsMut(rand_walk(rng)),
+            8 => Op::ColMut(bump(rng, c), rand_walk(rng)),
+            9 => Op::CellsMut(rand_walk(rng)),
+            10 => Op::CloneFromSlice(if invalid { rng.below(3) as isize - 1 } else { 0 }),
+            11 => Op::CloneFromToodee(*rng.pick(&[SrcKind::Owned, SrcKind::View, SrcKind::ViewMut]), if invalid && rng.chance(1, 3) { SizeRel::ColsPlus1 } else { SizeRel::Same }),
+            12 => {
+                let v = *rng.pick(&[SortVar::RowOrd, SortVar::ByRow, SortVar::ByRowKey]);
+                Op::Sort(v, bump(rng, r), rng.chance(1, 2))
+            }
+            13 => {
+                let v = *rng.pick(&[SortVar::ColOrd, SortVar::ByCol, SortVar::ByColKey]);
+                Op::Sort(v, bump(rng, c), rng.chance(1, 2))
+            }
+            14 => Op::Translate(if invalid && rng.chance(1, 4) { c + 1 } else { rng.below(c + 1) }, if invalid && rng.chance(1, 4) { r + 1 } else { rng.below(r + 1) }),
+            15 => Op::FlipRows,
+            16 => Op::FlipCols,
+            17 => Op::CopyFromSlice(if invalid { rng.below(3) as isize - 1 } else { 0 }),
+            18 => Op::CopyFromToodee(*rng.pick(&[SrcKind::Owned, SrcKind::View, SrcKind::ViewMut]), if invalid && rng.chance(1, 3) { SizeRel::RowsPlus1 } else { SizeRel::Same }),
+            _ => {
+                let (s, e) = rand_window(rng, c, r);
+                let w = e.0 - s.0;
+                let h = e.1 - s.1;
+                let d0 = if invalid && rng.chance(1, 4) { c - w + 1 } else { rng.below(c - w + 1) };
+                let d1 = if invalid && rng.chance(1, 4) { r - h + 1 } else { rng.below(r - h + 1) };
+                Op::CopyWithin(s, e, (d0, d1))
+            }
+        };
+        if op.copy_only() && !copy_ok {
+            continue;
+        }
+        return op;
+    }
+}
+
+pub fn rand_step(rng: &mut Rng, g: &Grid, invalid: bool, copy_ok: bool, conversions: bool, maxdim: usize) -> Step {
+    let (c, r) = g.size();
+    let cells = c * r;
+    let big = c >= maxdim || r >= maxdim || cells > maxdim * maxdim / 2;
+    let ik = rng.below(ITER_KINDS);
+    let roll = rng.below(100);
+    let bad = invalid && rng.chance(1, 6);
+    // structural operations dominate
+    if roll < 14 && !big {
+        let idx = if bad { r + 1 + rng.below(2) } else { rng.below(r + 1) };
+        let len = if c == 0 { rng.below(maxdim.min(4) + 1) } else if invalid && rng.chance(1, 6) { c + 1 - 2 * rng.below(2) } else { c };
+        let push = rng.chance(1, 3);
+        return Step::Ins { axis: Axis::Row, idx: if push { r } else { idx }, len, push, ik };
+    }
+    if roll < 28 && !big {
+        let idx = if bad { c + 1 + rng.below(2) } else { rng.below(c + 1) };
+        let len = if r == 0 { rng.below(maxdim.min(4) + 1) } else if invalid && rng.chance(1, 6) { r + 1 - 2 * rng.below(2) } else { r };
+        let push = rng.chance(1, 3);
+        return Step::Ins { axis: Axis::Col, idx: if push { c } else { idx }, len, push, ik };
+    }
+    if roll < 44 || (big && roll < 70) {
+        let axis = if rng.chance(1, 2) { Axis::Row } else { Axis::Col };
+        let dim = if axis == Axis::Row { r } else { c };
+        let line = if axis == Axis::Row { c } else { r };
+        let pop = rng.chance(1, 3);
+        if dim == 0 && !pop && !invalid {
+            return Step::Rem { axis, idx: 0, pop: true, front: 0, back: 0, inter: 0 };
+        }
+        let idx = if pop { dim.saturating_sub(1) } else if bad || dim == 0 { dim + rng.below(2) } else { rng.below(dim) };
+        let front = rng.below(line + 1);
+        let back = rng.below(line - front + 1);
+        return Step::Rem { axis, idx, pop, front, back, inter: rng.below(3) };
+    }
+    match roll {
+        44..=46 => Step::Clear,
+        47..=50 => Step::SwapDims,
+        51 => Step::Reserve(rng.below(20)),
+        52 => Step::ReserveExact(rng.below(20)),
+        53..=54 => Step::Shrink,
+        55..=56 => Step::DataMut(rng.below(1000)),
+        57 => Step::Default,
+        58 => Step::WithCapacity(rng.below(30)),
+        59 => {
+            let (nc, nr) = if bad { (*rng.pick(&[0usize, 3, usize::MAX]), *rng.pick(&[2usize, 0, usize::MAX / 2 + 1])) } else if rng.chance(1, 5) { (0, 0) } else { (rng.range(1, 4), rng.range(1, 4)) };
+            if rng.chance(1, 2) {
+                Step::New(nc, nr)
+            } else {
+                Step::Init(nc, nr)
+            }
+        }
+        60..=61 => {
+            let (nc, nr) = if rng.chance(1, 6) { (0, 0) } else { (rng.range(1, 4), rng.range(1, 4)) };
+            let len = if bad { nc * nr + 1 } else { nc * nr };
+            let (nc, nr) = if invalid && rng.chance(1, 10) { (nc, 0) } else { (nc, nr) };
+            let len = if nr == 0 && nc != 0 && rng.chance(1, 2) { 0 } else { len };
+            if rng.chance(1, 2) {
+                Step::FromVec(nc, nr, len)
+            } else {
+                Step::FromBox(nc, nr, len)
+            }
+        }
+        62..=63 => Step::CloneSelf,
+        64..=65 => Step::FromView(rand_window(rng, c, r), rng.chance(1, 2)),
+        66..=69 if conversions => {
+            if rng.chance(1, 2) {
+                Step::RoundTripVec
+            } else {
+                Step::RoundTripBox
+            }
+        }
+        70..=84 => Step::InPlace(rand_op(rng, c, r, invalid, copy_ok)),
+        _ => {
+            let w = rand_window(rng, c, r);
+            let (wc, wr) = ((w.1).0 - (w.0).0, (w.1).1 - (w.0).1);
+            let (wc, wr) = if wc == 0 || wr == 0 { (0, 0) } else { (wc, wr) };
+            Step::ViewOp(w, rand_op(rng, wc, wr, invalid, copy_ok))
+        }
+    }
+}
+
+fn random_history<T: Elem + Clone + Ord + Default>(ctx: &mut Ctx, prop: &'static str, seed_mix: u64, nsteps: usize, invalid: bool, conversions: bool, maxdim: usize) {
+    ledger_reset();
+    kv_reset();
+    fault_reset();
+    let mut rng = Rng::from_parts(ctx.seed, seed_mix, 1);
+    let mut h = Hist::<T>::new();
+    h.valid_only = !invalid;
+    let copy_ok = T::CLONE_KEEPS_UID && !T::IS_ZST;
+    let mut all_ok = true;
+    let mut moved = false;
+    for _ in 0..nsteps {
+        let st = rand_step(&mut rng, &h.g, invalid, copy_ok, conversions, maxdim);
+        let out = h.step(ctx, &st);
+        if out == StepOut::Skipped {
+            ctx.count("skipped_invalid", 1);
+            continue;
+        }
+        ctx.count("calls", 1);
+        if out == StepOut::Failed {
+            all_ok = false;
+            break;
+        }
+        if out == StepOut::Accepted && h.g.len() > 0 {
+            moved = true;
+        }
+    }
+    ctx.count("passed_through_empty", h.passed_empty);
+    if conversions && all_ok {
+        // end of a panic-free history: consume the array one way or another, then nothing may be alive
+        let f = rng.below(3);
+        let b = rng.below(3);
+        if rng.chance(1, 2) {
+            all_ok &= h.step(ctx, &Step::IntoIterPartial(f, b)) != StepOut::Failed;
+        }
+    }
+    let rejected = h.rejected;
+    drop(h);
+    all_ok &= check_double_drops(ctx, "drop");
+    if all_ok && rejected == 0 {
+        all_ok &= check_no_leak(ctx, "end-of-history");
+    }
+    ledger_counts(ctx);
+    ctx.count("histories", 1);
+    if all_ok && moved {
+        ctx.nontrivial((prop, T::NAME, seed_mix));
+    }
+}
+
+// ------------------------------------------------------------------------------------------------
+// bounded-exhaustive histories over a reduced structural alphabet
+
+fn reduced_alphabet(d: usize) -> Vec<Step> {
+    let mut v = vec![];
+    for axis in [Axis::Row, Axis::Col] {
+        for idx in 0..=d + 1 {
+            for len in 0..=d + 1 {
+                v.push(Step::Ins { axis, idx, len, push: false, ik: (idx + len) % ITER_KINDS });
+            }
+        }
+        for idx in 0..=d {
+            for (front, back) in [(0, 0), (1, 0), (0, 1), (9, 0)] {
+                v.push(Step::Rem { axis, idx, pop: false, front, back, inter: 0 });
+            }
+        }
+        v.push(Step::Rem { axis, idx: 0, pop: true, front: 0, back: 1, inter: 0 });
+    }
+    v.push(Step::Clear);
+    v.push(Step::SwapDims);
+    v.push(Step::Shrink);
+    v.push(Step::CloneSelf);
+    v
+}
+
+fn starts(d: usize) -> Vec<Step> {
+    let mut v = vec![Step::Default, Step::WithCapacity(3), Step::New(1, 1), Step::Init(d, 1), Step::FromVec(1, d, d), Step::FromBox(d, d, d * d)];
+    v.dedup();
+    v
+}
+
+fn exhaustive_case<T: Elem + Clone + Ord + Default>(ctx: &mut Ctx, prop: &'static str, start: &Step, first: &Step, alpha: &[Step], depth: usize, valid_only: bool) {
+    // depth-first over all continuations; each history is replayed from scratch
+    let mut stack: Vec<Vec<usize>> = vec![vec![]];
+    while let Some(prefix) = stack.pop() {
+        ledger_reset();
+        kv_reset();
+        let mut h = Hist::<T>::new();
+        h.valid_only = valid_only;
+        let mut ok = h.step(ctx, start) != StepOut::Failed;
+        let mut rejected = false;
+        if ok {
+            let o = h.step(ctx, first);
+            ok = o != StepOut::Failed;
+            rejected |= o == StepOut::Rejected || o == StepOut::Skipped;
+        }
+        for &i in &prefix {
+            if !ok || (valid_only && rejected) {
+                break;
+            }
+            let o = h.step(ctx, &alpha[i]);
+            ok = o != StepOut::Failed;
+            rejected |= o == StepOut::Rejected || o == StepOut::Skipped;
+        }
+        ctx.count("calls", (2 + prefix.len()) as u64);
+        ctx.count("histories", 1);
+        let pruned = valid_only && rejected;
+        drop(h);
+        ok &= check_double_drops(ctx, "drop");
+        if ok && (!rejected || valid_only) {
+            ok &= check_no_leak(ctx, "end-of-history");
+        }
+        if ok && !pruned {
+            ctx.nontrivial((prop, T::NAME, start, first, prefix.iter().map(|i| &alpha[*i]).collect::<Vec<_>>()));
+            if prefix.len() + 2 < depth + 1 {
+                for i in 0..alpha.len() {
+                    let mut p = prefix.clone();
+                    p.push(i);
+                    stack.push(p);
+                }
+            }
+        }
+        ledger_counts(ctx);
+    }
+}
+
+fn hist_params(ctx: &Ctx) -> (usize, usize, usize, usize, usize) {
+    // (reduced-alphabet dimension, exhaustive depth, #random histories, steps per history, maxdim)
+    match (ctx.scale, ctx.tier) {
+        (Scale::Miri, Tier::Quick) => (1, 2, 24, 12, 3),
+        (Scale::Miri, Tier::Thorough) => (1, 2, 96, 16, 3),
+        (Scale::Vg, _) => (1, 3, 300, 30, 5),
+        (Scale::Native, Tier::Quick) => (2, 3, 6000, 40, 6),
+        (Scale::Native, Tier::Thorough) => (2, 4, 200000, 60, 8),
+    }
+}
+
+pub fn run_c01(ctx: &mut Ctx) {
+    let (d, depth, nrand, nsteps, maxdim) = hist_params(ctx);
+    let alpha = reduced_alphabet(d);
+    for start in starts(d) {
+        for first in &alpha {
+            for ty in 0..2 {
+                if ctx.case(|| format!("C01 exhaustive start={:?} first={:?} depth={} elem={}", start, first, depth, ["Tok", "Zst"][ty])) {
+                    match ty {
+                        0 => exhaustive_case::<Tok>(ctx, "C01", &start, first, &alpha, depth, false),
+                        _ => exhaustive_case::<Zst>(ctx, "C01", &start, first, &alpha, depth.min(3), false),
+                    }
+                }
+                if ctx.done() {
+                    return;
+                }
+            }
+        }
+    }
+    for i in 0..nrand {
+        if ctx.case(|| format!("C01 random history #{} ({} steps)", i, nsteps)) {
+            match i % 4 {
+                0 | 1 => random_history::<Tok>(ctx, "C01", ctx.cur_idx, nsteps, true, false, maxdim),
+                2 => random_history::<Kv>(ctx, "C01", ctx.cur_idx, nsteps, true, false, maxdim),
+                _ => random_history::<Zst>(ctx, "C01", ctx.cur_idx, nsteps, true, false, maxdim),
+            }
+        }
+        if ctx.done() {
+            return;
+        }
+    }
+}
+
+pub fn run_c05(ctx: &mut Ctx) {
+    let (d, depth, nrand, nsteps, maxdim) = hist_params(ctx);
+    // C05 histories contain no rejected calls, so that "nothing panics" holds and the end-of-history
+    // leak check (ledger + LSan/Miri/memcheck) is sound.
+    let alpha: Vec<Step> = reduced_alphabet(d);
+    for start in starts(d) {
+        for first in &alpha {
+            for ty in 0..2 {
+                if ctx.case(|| format!("C05 exhaustive(valid only) start={:?} first={:?} depth={} elem={}", start, first, depth, ["Tok", "Zst"][ty])) {
+                    match ty {
+                        0 => exhaustive_case::<Tok>(ctx, "C05", &start, first, &alpha, depth, true),
+                        _ => exhaustive_case::<Zst>(ctx, "C05", &start, first, &alpha, depth.min(3), true),
+                    }
+                }
+                if ctx.done() {
+                    return;
+                }
+            }
+        }
+    }
+    for i in 0..nrand {
+        if ctx.case(|| format!("C05 random valid history #{} ({} steps)", i, nsteps)) {
+            if i % 3 == 2 {
+                random_history::<Zst>(ctx, "C05", ctx.cur_idx, nsteps, false, true, maxdim)
+            } else {
+                random_history::<Tok>(ctx, "C05", ctx.cur_idx, nsteps, false, true, maxdim)
+            }
+        }
+        if ctx.done() {
+            return;
+        }
+    }
+}
